@@ -731,6 +731,49 @@ func TestC07(t *testing.T) {
 				}
 			}
 		}
+		// and one property that is set and says nothing (an empty list, texts without text, an endpoints object without endpoints -
+		// what "endpoints":{} decodes to) in a value that holds nothing else: the value still arrives, as what it is
+		for _, nc := range names {
+			if !nc.known {
+				continue
+			}
+			st := vocab.StructType(nc.ti.GoType)
+			for _, c := range all {
+				if c.name != "json-top" && c.name != "gob-top" && c.name != "gob-nested" && c.name != "gob-list" {
+					continue
+				}
+				for _, f := range vocab.Fields(st) {
+					var e reflect.Value
+					switch f.Kind {
+					case vocab.KItem:
+						var it ap.Item = ap.ItemCollection{}
+						e = reflect.ValueOf(&it).Elem()
+					case vocab.KItems:
+						e = reflect.ValueOf(ap.ItemCollection{})
+					case vocab.KNLV:
+						e = reflect.ValueOf(ap.NaturalLanguageValues{{Ref: "en", Value: ap.Content("")}})
+					case vocab.KEndpoints:
+						e = reflect.ValueOf(&ap.Endpoints{})
+					default:
+						continue
+					}
+					atotal++
+					cell := fmt.Sprintf("%s %s-one-empty %s", nc.name, c.name, f.Name)
+					if !r.WantCell(cell) {
+						continue
+					}
+					adone++
+					p := reflect.New(st)
+					p.Elem().FieldByName("ID").SetString("https://example.com/alone")
+					p.Elem().FieldByName("Type").SetString(nc.name)
+					p.Elem().Field(f.Index).Set(e)
+					x := p.Interface().(ap.Item)
+					ds, _ := roundTrip(c, x, "type "+nc.name+" "+c.name+"-one-empty unset", st.Name()+"."+f.Name)
+					r.Case(cell, true, "everything one-empty entry="+c.name)
+					reportAll(r, "everything", cell, ds, map[string]interface{}{"cell": cell, "value": vocab.Dump(x)})
+				}
+			}
+		}
 		r.Cells(atotal, adone)
 		r.Exhaustive("everything", !r.Replaying())
 	}
